@@ -202,11 +202,11 @@ class Gen:
         if kind == "create":
             name = self.ns_name()
             if r.random() < 0.14:
-                name = r.choice(("INBOX", "inbox", "InBoX", "123", "a/", "/a", "a/2024", "a/7/b", ".", " "))
+                name = r.choice(("INBOX", "inbox", "InBoX", "123", "a/", "/a", "a/2024", "a/7/b", ".", " ", "p/q/" + "x" * 300, "b/.mh_sequences", "n/" + "y" * 256, "p/" + "z" * 255))
             parts = name.strip("/").split("/")
             for j in range(1, len(parts) + 1):
                 pn = "/".join(parts[:j])
-                if pn and pn not in self.names and pn.lower() != "inbox" and not pn.isdigit() and name not in (".", " "):
+                if pn and pn not in self.names and pn.lower() != "inbox" and not pn.isdigit() and name not in (".", " ") and len(name) < 200 and not name.endswith(".mh_sequences"):
                     self.names.append(pn)
             return {"s": s, "op": "create", "name": name}
         if kind == "delete":
@@ -230,8 +230,8 @@ class Gen:
             elif x < 0.2:
                 old = r.choice(("INBOX", "inbox"))
             elif x < 0.27:
-                new = r.choice(("INBOX", "Inbox", "inbox", "5", "a/12", " ", "."))
-            if new in (".", " "):
+                new = r.choice(("INBOX", "Inbox", "inbox", "5", "a/12", " ", ".", "s/t/" + "x" * 300, "a/.mh_sequences"))
+            if new in (".", " ") or len(new) > 200 or new.endswith(".mh_sequences"):
                 pass  # refused: the name pool is unchanged
             elif old in self.names and new not in self.names and old.lower() != "inbox" and not new.startswith(old + "/"):
                 ren = [n for n in self.names if n == old or n.startswith(old + "/")]
